@@ -187,7 +187,10 @@ def write_evidence(prop, tier, seed, coverage, wall_s, violations, assumptions=N
     }
     if extra:
         ev.update(extra)
-    path = os.path.join(OUT, "evidence", prop + ".json")
+    import re
+    evdir = os.path.join(OUT, "evidence") if re.fullmatch(r"C\d\d", prop) else os.path.join(OUT, "work", "evidence-unregistered")
+    os.makedirs(evdir, exist_ok=True)  # helper scenarios (C07X) are not properties: no evidence file under evidence/
+    path = os.path.join(evdir, prop + ".json")
     tmp = path + ".tmp%d" % os.getpid()
     json.dump(ev, open(tmp, "w"), indent=1, default=str)
     os.replace(tmp, path)
